@@ -797,6 +797,32 @@ func textOf(sym []int, charset string) string {
 	return string(b)
 }
 
+// LIP-0018 checksum (BCH code over GF(32)), written from the LIP: used only to BUILD texts of the wrong length whose
+// checksum nevertheless verifies over all their symbols
+func lipPolymod(v []int) int {
+	gen := []int{0x3b6a57b2, 0x26508e6d, 0x1ea119fa, 0x3d4233dd, 0x2a1462b3}
+	chk := 1
+	for _, x := range v {
+		top := chk >> 25
+		chk = ((chk & 0x1ffffff) << 5) ^ x
+		for i := 0; i < 5; i++ {
+			if (top>>uint(i))&1 != 0 {
+				chk ^= gen[i]
+			}
+		}
+	}
+	return chk
+}
+
+func withChecksum(data []int) []int {
+	mod := lipPolymod(append(append([]int{}, data...), 0, 0, 0, 0, 0, 0)) ^ 1
+	out := append([]int{}, data...)
+	for p := 0; p < 6; p++ {
+		out = append(out, (mod>>uint(5*(5-p)))&31)
+	}
+	return out
+}
+
 func lisk32Gen(rep *report, w *tj.Writer, g *gen, perType int) {
 	n := 25 * perType
 	for i := 0; i < n; i++ {
@@ -861,6 +887,32 @@ func lisk32Gen(rep *report, w *tj.Writer, g *gen, perType int) {
 				if err == nil {
 					rep.viol("lisk32", fmt.Sprintf("malformed address text %q is accepted", bad), map[string]interface{}{"text": bad})
 				}
+			}
+			// texts of the wrong length whose checksum is correct for what they contain (a validator that only checks the
+			// polynomial accepts them): 31, 33, 34 and 40 data symbols
+			if got := withChecksum(sym[:32]); textOf(got, lisk32Charset) != text {
+				panic("harness: own LIP-0018 checksum disagrees with BytesToLisk32 on " + text)
+			}
+			for _, extra := range []int{-1, 1, 2, 8} {
+				data := append([]int{}, sym[:32]...)
+				if extra < 0 {
+					data = data[:31]
+				}
+				for k := 0; k < extra; k++ {
+					data = append(data, g.r.Intn(32))
+				}
+				bad := textOf(withChecksum(data), lisk32Charset)
+				var err error
+				var bb []byte
+				guard(func() { bb, err = codec.Lisk32ToBytes(bad) })
+				if err == nil {
+					rep.viol("lisk32", fmt.Sprintf("address text %q of length %d (checksum valid for its %d data symbols) is accepted as %x", bad, len(bad), len(data), bb), map[string]interface{}{"text": bad})
+				}
+				var l32 codec.Lisk32
+				if jerr := l32.UnmarshalJSON([]byte(`"` + bad + `"`)); jerr == nil {
+					rep.viol("lisk32", fmt.Sprintf("address text %q of length %d is accepted by Lisk32.UnmarshalJSON", bad, len(bad)), map[string]interface{}{"text": bad})
+				}
+				rep.Counts["l32_wronglen"]++
 			}
 			for _, bl := range []int{1, 19, 21, 32} {
 				var err error
